@@ -158,23 +158,11 @@ func (c *Ctx) ruleHasBeforeSet() {
 			recv, key := accessPath(pk, sel.X), accessPath(pk, call.Args[0])
 			altKey := c.resolveThroughCtor(f, call.Args[0])
 			okey := fmt.Sprintf("%s | %s.Set(%s)", f.Name(), exprString(sel.X), exprString(call.Args[0]))
-			found, impure := "", ""
-			for _, t := range tests {
-				if t.recv != recv || (t.key != key && (altKey == "" || testKeyString(pk, t.ifs) != altKey)) || !cf.dominatedBy(call, t.ifs.Cond) {
-					continue
-				}
-				if !t.hitExits {
-					continue
-				}
-				if !t.pure {
-					impure = exprString(t.ifs.Cond)
-					continue
-				}
-				if t.hitError {
-					found = "a present key returns an error"
-				} else {
-					found = "a present key returns the existing entry (get-or-create)"
-				}
+			found, impure := guardedByPresenceTest(pk, cf, tests, call, recv, key, altKey)
+			if found == "" && impure == "" {
+				// the insertion sits in a helper and map and key are its receiver and parameter: the test is owed by
+				// every caller, before the call
+				found, impure = c.liftPresenceTest(f, sel.X, call.Args[0], 0)
 			}
 			switch {
 			case found != "":
@@ -189,6 +177,56 @@ func (c *Ctx) ruleHasBeforeSet() {
 		// (2) slot assignments
 		c.slotAssignments(f, cf)
 	}
+}
+
+// guardedByPresenceTest: is `site` dominated by a pure presence test of map recv and key whose hit branch leaves?
+func guardedByPresenceTest(pk *packages.Package, cf *funcCFG, tests []presenceTest, site ast.Node, recv, key, altKey string) (found, impure string) {
+	for _, t := range tests {
+		if t.recv != recv || (t.key != key && (altKey == "" || testKeyString(pk, t.ifs) != altKey)) || !cf.dominatedBy(site, t.ifs.Cond) {
+			continue
+		}
+		if !t.hitExits {
+			continue
+		}
+		if !t.pure {
+			impure = exprString(t.ifs.Cond)
+			continue
+		}
+		if t.hitError {
+			found = "a present key returns an error"
+		} else {
+			found = "a present key returns the existing entry (get-or-create)"
+		}
+	}
+	return found, impure
+}
+
+// liftPresenceTest: f is a helper that is only called inside the library; every call site must be dominated by the
+// presence test of the map and key it hands to f.
+func (c *Ctx) liftPresenceTest(f *Fn, mapExpr, keyExpr ast.Expr, depth int) (found, impure string) {
+	if depth > 2 {
+		return "", ""
+	}
+	sites, closed := c.callersOf(f)
+	if !closed || len(sites) == 0 {
+		return "", ""
+	}
+	for _, cs := range sites {
+		recv, key := rebase(f, mapExpr, cs), rebase(f, keyExpr, cs)
+		if recv == "" || key == "" {
+			return "", ""
+		}
+		g := cs.g
+		fd, imp := guardedByPresenceTest(g.Pkg, buildCFG(g.Decl.Body), presenceTests(g.Pkg, g.Decl.Body), cs.call, recv, key, "")
+		if imp != "" {
+			return "", imp
+		}
+		if fd == "" {
+			return "", ""
+		}
+		found = fd + " (in every caller of the helper " + f.Obj.Name() + ")"
+	}
+	return found, ""
 }
 
 // testKeyString: the key expression of a presence test as source text.
@@ -668,6 +706,8 @@ func (c *Ctx) ruleNoSkipOnExists() {
 			key := fmt.Sprintf("%s | skip when %s has the key", f.Name(), name)
 			if why, ok := skipMemoSets[short]; ok {
 				r.Ok("C03-NO-SKIP-ON-EXISTS", key, "named memo set: "+why, c.pos(ifs.Pos()))
+			} else if c.mapIsCallLocal(f, b, map[types.Object]bool{}) {
+				r.Ok("C03-NO-SKIP-ON-EXISTS", key, "a map made for this call (a local made in the function, or a parameter that every caller fills with such a local): a visited set of one walk, not a table of declarations", c.pos(ifs.Pos()))
 			} else {
 				r.Bad("C03-NO-SKIP-ON-EXISTS", key, "an 'already there, skip' test on a table that is not a known memo set: a second declaration of the same name is skipped before the duplicate check can reject it", c.pos(ifs.Pos()))
 			}
@@ -677,6 +717,82 @@ func (c *Ctx) ruleNoSkipOnExists() {
 	if n == 0 {
 		r.Undecided("C03-NO-SKIP-ON-EXISTS", "sites", "no skip-on-hit lookup found at all (the memo sets used to match)", "")
 	}
+}
+
+// mapIsCallLocal: the map expression is a local variable initialised by make / a composite literal in f, or a
+// parameter of f for which every call site in the library passes such a map (or the caller's own such parameter).
+func (c *Ctx) mapIsCallLocal(f *Fn, e ast.Expr, visiting map[types.Object]bool) bool {
+	switch x := ast.Unparen(e).(type) {
+	case *ast.CompositeLit:
+		return true
+	case *ast.CallExpr:
+		if fid, isF := x.Fun.(*ast.Ident); isF && fid.Name == "make" {
+			return true
+		}
+		return false
+	}
+	id, ok := ast.Unparen(e).(*ast.Ident)
+	if !ok {
+		return false
+	}
+	pk := f.Pkg
+	obj := pk.TypesInfo.Uses[id]
+	if obj == nil {
+		return false
+	}
+	if idx := paramIndexOf(f, id); idx >= 0 {
+		if visiting[obj] {
+			return true // a cycle of calls that only hands the parameter on
+		}
+		visiting[obj] = true
+		if paramAssigned(f, id) {
+			return false
+		}
+		sites, closed := c.callersOf(f)
+		if !closed || len(sites) == 0 {
+			return false
+		}
+		for _, cs := range sites {
+			arg := argFor(cs, idx)
+			if arg == nil || !c.mapIsCallLocal(cs.g, arg, visiting) {
+				return false
+			}
+		}
+		return true
+	}
+	if v, isVar := obj.(*types.Var); !isVar || v.IsField() || v.Parent() == nil || v.Parent() == v.Pkg().Scope() {
+		return false
+	}
+	// a local: every assignment to it is make(...) or a composite literal
+	n, fresh := 0, true
+	ast.Inspect(f.Decl.Body, func(nd ast.Node) bool {
+		as, isAs := nd.(*ast.AssignStmt)
+		if !isAs {
+			return true
+		}
+		for i, l := range as.Lhs {
+			lid, isId := ast.Unparen(l).(*ast.Ident)
+			if !isId || (pk.TypesInfo.Defs[lid] != obj && pk.TypesInfo.Uses[lid] != obj) {
+				continue
+			}
+			n++
+			if i >= len(as.Rhs) {
+				fresh = false
+				continue
+			}
+			switch r := ast.Unparen(as.Rhs[i]).(type) {
+			case *ast.CompositeLit:
+			case *ast.CallExpr:
+				if fid, isF := r.Fun.(*ast.Ident); !isF || fid.Name != "make" {
+					fresh = false
+				}
+			default:
+				fresh = false
+			}
+		}
+		return true
+	})
+	return n > 0 && fresh
 }
 
 // ---------- fault classes ----------
